@@ -227,15 +227,14 @@ class ParseMCNPCell:
     def parse_keywords(self, kw_list):
         '''Parse the list of keywords following the cell definition.'''
         keywords = defaultdict(lambda: None)
+        # importance by particle designator; a later keyword for the same
+        # particles overrides an earlier one (LIKE n BUT)
+        importances = {}
         while kw_list:
             elt = kw_list.pop()
             if elt.startswith('imp'):
-                importance = float(kw_list.pop())
-                if 'importance' in keywords:
-                    keywords['importance'] = max(importance,
-                                                 keywords['importance'])
-                else:
-                    keywords['importance'] = importance
+                importances[elt] = float(kw_list.pop())
+                keywords['importance'] = max(importances.values())
             elif 'fill' in elt:
                 f_bounds, f_univs, f_params = self.parse_fill_kw(elt, kw_list)
                 keywords['f_bounds'] = f_bounds
